@@ -78,7 +78,7 @@ Definition sx_value (x : sx) : option value :=
   | SL [SZ 8; SZ h] => Some (VSMAnswer (Z.to_N h))
   | SL [SZ 9; SS p; h] => do h' <- as_opt as_n h; Some (VSMResume p h')
   | SL [SZ 10; SS p; h] => do h' <- as_opt as_n h; Some (VSMResumed p h')
-  | SL [SZ 11; h] => do h' <- as_opt as_n h; Some (VSMFailed h')
+  | SL [SZ 11; h; SS c] => do h' <- as_opt as_n h; Some (VSMFailed h' c)
   | SL [SZ 12; SS m; SS v] => Some (VSASLAuth m v)
   | SL [SZ 13; SS v] => Some (VHandshake v)
   | _ => None
@@ -119,7 +119,7 @@ Definition value_sx (v : value) : sx :=
   | VSMAnswer h => SL [SZ 8; SN h]
   | VSMResume p h => SL [SZ 9; SS p; SO SN h]
   | VSMResumed p h => SL [SZ 10; SS p; SO SN h]
-  | VSMFailed h => SL [SZ 11; SO SN h]
+  | VSMFailed h c => SL [SZ 11; SO SN h; SS c]
   | VSASLAuth m v => SL [SZ 12; SS m; SS v]
   | VHandshake v => SL [SZ 13; SS v]
   end.
